@@ -14,13 +14,14 @@ import (
 // ---- scenario ----------------------------------------------------------------------------------------
 
 type C06Delivery struct {
-	Link    int `json:"link"`    // which peer session delivers it (mod number of peers)
-	Origin  int `json:"origin"`  // index into the origin pool {r1 r2 r3 p0.. sut}
-	Epoch   int `json:"epoch"`   // 0..2 -> e0<e1<e2 ; for origin sut: 0 = own epoch, 1 = older, 2 = newer
-	Seq     int `json:"seq"`     // 0..5
-	Adj     int `json:"adj"`     // adjacency pool index
-	Replay  int `json:"replay"`  // -1 fresh update; k>=0: re-deliver the update of delivery (k mod i) verbatim (same UpdateID)
-	Suspect int `json:"suspect"` // 0 none; 1..3 = SuspectedDuplicate e0..e2
+	Link    int   `json:"link"`           // which peer session delivers it (mod number of peers)
+	Origin  int   `json:"origin"`         // index into the origin pool {r1 r2 r3 p0.. sut}
+	Epoch   int   `json:"epoch"`          // 0..2 -> e0<e1<e2 ; for origin sut: 0 = own epoch, 1 = older, 2 = newer
+	Seq     int   `json:"seq"`            // 0..5
+	Adj     int   `json:"adj"`            // adjacency pool index
+	Replay  int   `json:"replay"`         // -1 fresh update; k>=0: re-deliver the update of delivery (k mod i) verbatim (same UpdateID)
+	Suspect int   `json:"suspect"`        // 0 none; 1..3 = SuspectedDuplicate e0..e2
+	Also    []int `json:"also,omitempty"` // further links that deliver the very same update at the same moment (remote origins only)
 }
 
 type C06Scn struct {
@@ -153,7 +154,8 @@ func execC06(b []byte) vx.Verdict {
 		Link  int
 	}
 	var hist []sent
-	expectRelay := map[string]int{} // UpdateID -> link index of the accepted delivery
+	expectRelay := map[string]int{}      // UpdateID -> link index of the accepted delivery
+	senders := map[string]map[int]bool{} // UpdateID -> all links that delivered it simultaneously
 	for i, u := range setup {
 		expectRelay[u.UpdateID] = i
 		model.seen[u.UpdateID] = true
@@ -226,15 +228,49 @@ func execC06(b []byte) vx.Verdict {
 			}
 		}
 		before := cloneKCC(sut.N.Status().KnownConnectionCosts)
-		if err := p.Send(vx.EncodeRoute(&u)); err != nil {
-			return vx.Inconclusive("send failed on %s: %v", p.ID, err)
-		}
-		if !p.Barrier(10 * time.Second) {
-			if p.SessionClosed() {
-				return vx.Violation("admissible-update-kept", "C06/session-closed",
-					"delivery %d (%s %+v) on %s: session was closed by the node although the update is admissible", i, class, u, p.ID)
+		group := map[int]bool{link: true}
+		if d.Replay < 0 && (u.NodeID == "r1" || u.NodeID == "r2" || u.NodeID == "r3") {
+			for _, a := range d.Also {
+				group[a%len(peers)] = true
 			}
-			return vx.Inconclusive("barrier after delivery %d timed out", i)
+		}
+		if len(group) > 1 {
+			// the same update arrives over several links at the same moment (each copy names its own forwarder)
+			start := make(chan struct{})
+			done := make(chan error, len(group))
+			for l := range group {
+				cp := u
+				cp.ForwardingNode = peers[l].ID
+				raw := vx.EncodeRoute(&cp)
+				go func(l int, raw []byte) { <-start; done <- peers[l].Send(raw) }(l, raw)
+			}
+			close(start)
+			for range group {
+				if err := <-done; err != nil {
+					return vx.Inconclusive("send failed: %v", err)
+				}
+			}
+			for l := range group {
+				if !peers[l].Barrier(10 * time.Second) {
+					return vx.Inconclusive("barrier after concurrent delivery %d timed out", i)
+				}
+			}
+			senders[u.UpdateID] = group
+			labels = append(labels, fmt.Sprintf("simultaneous-on-%d-links", len(group)))
+			if class == "notice" || class == "accepted" {
+				nontrivial = true
+			}
+		} else {
+			if err := p.Send(vx.EncodeRoute(&u)); err != nil {
+				return vx.Inconclusive("send failed on %s: %v", p.ID, err)
+			}
+			if !p.Barrier(10 * time.Second) {
+				if p.SessionClosed() {
+					return vx.Violation("admissible-update-kept", "C06/session-closed",
+						"delivery %d (%s %+v) on %s: session was closed by the node although the update is admissible", i, class, u, p.ID)
+				}
+				return vx.Inconclusive("barrier after delivery %d timed out", i)
+			}
 		}
 		after := cloneKCC(sut.N.Status().KnownConnectionCosts)
 		// ---- model update
@@ -301,7 +337,7 @@ func execC06(b []byte) vx.Verdict {
 		// ---- expected relays must arrive
 		if class == "accepted" || class == "notice" {
 			for j, q := range peers {
-				if j == link {
+				if j == link || senders[u.UpdateID][j] {
 					continue
 				}
 				id := u.UpdateID
@@ -332,6 +368,7 @@ func execC06(b []byte) vx.Verdict {
 	for _, h := range hist {
 		byID[h.U.UpdateID] = h.U
 	}
+	backTo := map[string]int{} // UpdateID -> copies relayed to links that had delivered it simultaneously
 	for j, q := range peers {
 		count := map[string]int{}
 		var lastOwnSeq uint64
@@ -355,17 +392,28 @@ func execC06(b []byte) vx.Verdict {
 			if !ok {
 				return vx.Violation("relay-once", "C06/unexpected-relay", "peer %s received a relay of %+v which was never accepted (history %s)", q.ID, r.U, histString(hist))
 			}
-			if src == j {
-				return vx.Violation("relay-not-back", "C06/relayed-back", "update %s was relayed back to the neighbour it came from (%s)", r.U.UpdateID, q.ID)
+			if g := senders[r.U.UpdateID]; len(g) > 1 {
+				if g[j] {
+					backTo[r.U.UpdateID]++
+				}
+			} else if src == j {
+				return vx.CertainViolation("relay-not-back", "C06/relayed-back", "update %s was relayed back to the neighbour it came from (%s)", r.U.UpdateID, q.ID)
 			}
 			if count[r.U.UpdateID] > 1 {
-				return vx.Violation("relay-once", "C06/relayed-twice", "peer %s received %d relays of update %s (history %s)", q.ID, count[r.U.UpdateID], r.U.UpdateID, histString(hist))
+				return vx.CertainViolation("relay-once", "C06/relayed-twice", "peer %s received %d relays of update %s (history %s)", q.ID, count[r.U.UpdateID], r.U.UpdateID, histString(hist))
 			}
 			o := byID[r.U.UpdateID]
 			if o.NodeID != r.U.NodeID || o.UpdateEpoch != r.U.UpdateEpoch || o.UpdateSequence != r.U.UpdateSequence ||
 				o.SuspectedDuplicate != r.U.SuspectedDuplicate || !rowEqual(o.Connections, r.U.Connections) {
 				return vx.Violation("relay-identical", "C06/relay-altered", "relay %+v differs from original %+v", r.U, o)
 			}
+		}
+	}
+	for id, n := range backTo {
+		// of k simultaneous copies exactly one is processed first; it may be relayed to the other k-1 deliverers, never to all k
+		if n > len(senders[id])-1 {
+			return vx.CertainViolation("relay-once", "C06/relayed-twice", "update %s arrived on %d links at once and was relayed back to %d of them: more than one copy was processed (history %s)",
+				id, len(senders[id]), n, histString(hist))
 		}
 	}
 	v := vx.OK(nontrivial && len(peers) >= 2, dedup(labels)...)
